@@ -106,7 +106,15 @@ func Fields(rng *rand.Rand, h *refmodel.Hdr, extreme bool, counter int) {
 	h.Time = 1231006505 + uint32(counter)*600
 }
 
-// PickBits draws bits from the class string.
+// CornerBits are encodings at the boundaries of the arithmetic: exponents around 0x20-0x23 (targets around 2^256:
+// tiny positive work, or none), exponents 0..4 (truncation), single-bit mantissas, sign bit with zero mantissa.
+var CornerBits = []uint32{
+	0x2100ffff, 0x21000001, 0x210000ff, 0x21010000, 0x220000ff, 0x22000001, 0x22000100, 0x2000ffff, 0x207fffff, 0x23000001,
+	0x00000000, 0x00800000, 0x00800005, 0x01003456, 0x01000000, 0x02008000, 0x02923456, 0x02000012, 0x03000001, 0x03800001, 0x037fffff,
+	0x04000001, 0x04800001, 0x05000001, 0x0900ffff, 0x09010000, 0x097fffff, 0x0a000001, 0x1d008000, 0x1d7fffff, 0x1d800000, 0x1e00ffff,
+}
+
+// PickBits draws bits from the class string ('R' = random uint32, 'C' = a corner encoding).
 func PickBits(rng *rand.Rand, classes string) uint32 {
 	if classes == "" {
 		classes = "M"
@@ -114,6 +122,9 @@ func PickBits(rng *rand.Rand, classes string) uint32 {
 	c := classes[rng.Intn(len(classes))]
 	if c == 'R' {
 		return rng.Uint32()
+	}
+	if c == 'C' {
+		return CornerBits[rng.Intn(len(CornerBits))]
 	}
 	return BitsClasses[c]
 }
